@@ -83,6 +83,20 @@ CHECKS["C08"] = {
     "technique": "Coq proofs (frame, identity case) + differential correspondence and independent merge oracle",
 }
 
+CHECKS["C04"] = {
+    "text": "Proof (Coq): record == is reflexive, symmetric, transitive; ProvBundle.__eq__'s dedupe + length test + greedy "
+            "find-and-remove is proved to hold exactly when both record lists contain the same records (the matching lemma: "
+            "for an equivalence, greedy matching over duplicate-free lists decides mutual inclusion, independent of set "
+            "iteration order), hence reflexive/symmetric/transitive; ProvDocument.__eq__ iff equal own records and same "
+            "bundles both ways, under unique bundle keys, which is proved to hold in every reachable world; permutation and "
+            "duplicate invariance and detection of a missing record are corollaries. Hash is not modelled (checked on the "
+            "implementation). Tie: Eq/EqRec calls in the correspondence programs incl. variant documents (one "
+            "content-preserving transformation or one content-changing edit), both orders; oracle on the implementation: "
+            "reflexive, symmetric, transitive, !=, hash, and == iff library-level content equal for all pairs.",
+    "design_ref": "DESIGN.md §5 C04, §10",
+    "technique": "Coq proof (equivalence + greedy-matching lemma) + differential correspondence and pairwise content oracle",
+}
+
 NOT_YET = {}
 
 
